@@ -7,14 +7,14 @@
 extern "C" {
 #endif
 
-enum { VS_FIFO = 0, VS_RAND = 1, VS_PCT = 2 };
+enum { VS_FIFO = 0, VS_RAND = 1, VS_PCT = 2, VS_DELAY = 3 };
 
 typedef struct vs_cfg {
 	uint64_t seed;
 	int      mode;     // VS_FIFO run-to-block, VS_RAND pre-empt with probability pct/100, VS_PCT priorities
-	int      pct;      // VS_RAND: pre-emption probability in percent
+	int      pct;      // VS_RAND: pre-emption probability in percent; VS_DELAY: probability (per mille, per sync point) that the running thread is stalled
 	int      depth;    // VS_PCT: number of priority change points
-	long     horizon;  // VS_PCT: change points are drawn in [0, horizon) scheduling steps
+	long     horizon;  // VS_PCT: change points are drawn in [0, horizon) scheduling steps; VS_DELAY: a stall lasts 10 .. 10+horizon steps
 	int      grace_ms; // real milliseconds to wait for kernel I/O before declaring "no I/O" (0 for AF_UNIX)
 	long     max_steps;      // livelock bound on scheduling steps (0 = default)
 	uint64_t max_virtual_ms; // livelock bound on virtual time (0 = default)
